@@ -275,8 +275,12 @@ def run_shard(spec, seed, tier, stats):
           'contracts': _contracts}[spec['kind']]
     try:
         fn(stats)
+        be.stir(seed)            # ... nor on what else the process did (random deals, an auction, plays, scoring, the formats)
         if spec['kind'] != 'contracts':
             fn(Stats())          # second pass in the same process: converters must not depend on earlier calls
+        else:
+            for t in [(b_, d_, 0, 'NS', 1) for b_ in range(35) for d_ in range(3)]:
+                _contract(*t, stats=None)
     except Violation as v:
         v.case = {'domain': spec['kind'], 'case': v.case}
         return [v]
